@@ -3,6 +3,7 @@
 package gen
 
 import (
+	"fmt"
 	"math/big"
 
 	"pgregory.net/rapid"
@@ -73,7 +74,7 @@ func BytePattern(t *rapid.T, label string) *big.Int {
 // Raw256 draws any value in [0, 2^256) from the boundary-biased mixture
 // relative to modulus m (not reduced).
 func Raw256(t *rapid.T, m *big.Int, label string) *big.Int {
-	strat := rapid.IntRange(0, 12).Draw(t, label+"_strat")
+	strat := rapid.IntRange(0, 13).Draw(t, label+"_strat")
 	v := new(big.Int)
 	switch strat {
 	case 0:
@@ -103,6 +104,8 @@ func Raw256(t *rapid.T, m *big.Int, label string) *big.Int {
 	case 9: // 2^256 - small
 		v.Sub(two256, one)
 		v.Sub(v, Small(t, label))
+	case 13: // limb-wise mixture around the modulus' own limbs (hostile for limb-by-limb range checks)
+		v = ModLimbMix(t, m, label)
 	case 12: // next to k*2^256/c for the small constants the formulas multiply by
 		v = FracEdge(t, m, label)
 	case 11: // next to a multiple of a limb boundary (carries out of / borrows into a limb; 2^256 mod p folds)
@@ -331,6 +334,38 @@ func FracEdge(t *rapid.T, m *big.Int, label string) *big.Int {
 	v.Mod(v, m)
 	if rapid.Bool().Draw(t, label+"_mont") {
 		return ref.FromM(v, m) // the internal (Montgomery) representation is v
+	}
+	return v
+}
+
+// ModLimbMix builds a 256-bit value limb by limb from the modulus' own limbs:
+// each 64-bit limb is the modulus' limb, that limb +-1, all-ones, zero or
+// random.  The results agree with the modulus in some limbs and differ in
+// others, on either side -- the inputs on which a hand-rolled limb-by-limb
+// "is it below the modulus?" goes wrong when one limb is skipped or a borrow
+// is dropped.
+func ModLimbMix(t *rapid.T, m *big.Int, label string) *big.Int {
+	mask := new(big.Int).SetUint64(^uint64(0))
+	v := new(big.Int)
+	for i := 3; i >= 0; i-- {
+		ml := new(big.Int).And(new(big.Int).Rsh(m, uint(64*i)), mask).Uint64()
+		var l uint64
+		switch Sampled([]string{"same", "same", "same", "+1", "-1", "ones", "zero", "random"}).Draw(t, fmt.Sprintf("%s_l%d", label, i)) {
+		case "same":
+			l = ml
+		case "+1":
+			l = ml + 1
+		case "-1":
+			l = ml - 1
+		case "ones":
+			l = ^uint64(0)
+		case "zero":
+			l = 0
+		default:
+			l = rapid.Uint64().Draw(t, fmt.Sprintf("%s_r%d", label, i))
+		}
+		v.Lsh(v, 64)
+		v.Or(v, new(big.Int).SetUint64(l))
 	}
 	return v
 }
